@@ -3,6 +3,10 @@
 // Line protocol (state ops print one line; run ops print one line per damaged input):
 //   base <hex>                         the undamaged file                         -> "ok <len>"
 //   orig <hex>                         the plaintext it decodes to (reference)   -> "ok <len>"
+//   reuse <0|1>                        1: every following lzma_stream case runs on ONE persistent lzma_stream that is
+//                                      re-initialised by the next case's init function WITHOUT lzma_end in between (the
+//                                      previous case ended in success, an error, or was abandoned mid-stream);
+//                                      results must equal the fresh-handle results                -> "ok <n>"
 //   one    <api> <flags> w             decode the base file as it is              -> "w <res>"
 //   one    <api> <flags> f <bit>       flip bit <bit> (bit k of byte k/8 is 1<<(k%8)) -> "f<bit> <res>"
 //   one    <api> <flags> t <len>       keep only the first <len> bytes           -> "t<len> <res>"
@@ -97,9 +101,14 @@ static void note(result *r, int code)
 		snprintf(r->notices + l, sizeof(r->notices) - l, l ? ",%d" : "%d", code);
 }
 
+static bool g_reuse;                       // see the `reuse` op
+static lzma_stream g_strm = LZMA_STREAM_INIT;
+
 static void run_stream_api(const char *api, uint32_t flags, const uint8_t *in, size_t n, result *r)
 {
-	lzma_stream strm = LZMA_STREAM_INIT;
+	lzma_stream fresh = LZMA_STREAM_INIT;
+	lzma_stream *sp = g_reuse ? &g_strm : &fresh;
+#define strm (*sp)
 	lzma_ret ret;
 	if (!strcmp(api, "sd"))
 		ret = lzma_stream_decoder(&strm, MEMLIMIT, flags);
@@ -121,7 +130,7 @@ static void run_stream_api(const char *api, uint32_t flags, const uint8_t *in, s
 	} else {
 		r->ret = 198; return;
 	}
-	if (ret != LZMA_OK) { r->ret = (int)ret; lzma_end(&strm); return; }
+	if (ret != LZMA_OK) { r->ret = (int)ret; if (!g_reuse) lzma_end(&strm); return; }
 	// A zero-length buffer still needs a non-NULL pointer for lzma_code() not to complain; use a valid address.
 	static const uint8_t empty[1] = {0};
 	strm.next_in = n ? in : empty;
@@ -145,7 +154,13 @@ static void run_stream_api(const char *api, uint32_t flags, const uint8_t *in, s
 	r->ret = fin;
 	r->consumed = (size_t)strm.total_in;
 	r->outlen = (size_t)strm.total_out;
-	lzma_end(&strm);
+	if (!g_reuse)
+		lzma_end(&strm);
+	else {
+		// the input buffer of this case is freed by the caller: do not leave a dangling pointer in the kept handle
+		strm.next_in = NULL; strm.avail_in = 0; strm.next_out = NULL; strm.avail_out = 0;
+	}
+#undef strm
 }
 
 static void run_sbd(uint32_t flags, const uint8_t *in, size_t n, result *r)
@@ -212,6 +227,10 @@ int main(void)
 			free(g_orig);
 			g_orig = hp_hex(l.tok[1], &g_orig_len);
 			printf("ok %zu\n", g_orig_len);
+		} else if (!strcmp(op, "reuse") && l.ntok == 2) {
+			g_reuse = hp_u64(l.tok[1]) != 0;
+			if (!g_reuse) { lzma_end(&g_strm); }
+			printf("ok %d\n", g_reuse ? 1 : 0);
 		} else if (!strcmp(op, "one") && l.ntok >= 4 && g_base != NULL) {
 			const char *api = l.tok[1];
 			uint32_t flags = (uint32_t)hp_u64(l.tok[2]);
@@ -275,6 +294,7 @@ int main(void)
 		}
 	}
 	hp_done(&l);
+	lzma_end(&g_strm);
 	free(g_base); free(g_orig); free(g_out);
 	return 0;
 }
